@@ -7,7 +7,7 @@ From C08 Require Import Model.
 Import ListNotations.
 Open Scope list_scope.
 
-Definition def := (list string * list sexp)%type.         (* parameters, body forms *)
+Definition def := (list string * list sexp * env)%type.   (* parameters, body forms, variables of the defining scope (closure) *)
 Definition ftab := list (string * def).                   (* latest definition first *)
 
 Section WithEvalS.
@@ -88,12 +88,12 @@ Fixpoint evalS (n : nat) (ft : ftab) (en : env) (o : list value) (e : sexp) : re
           | None =>
               match slookup f ft with
               | None => (Err EUndefined, o)          (* a call to a function that has no definition *)
-              | Some (ps, forms) =>
+              | Some (ps, forms, clos) =>
                   match eval_argsS (evalS n' ft) en o args with
                   | (AVals vs, o1) =>
                       match arity_err (List.length ps) (List.length vs) with
                       | Some e => (Err e, o1)                 (* too many or too few arguments *)
-                      | None => eval_bodyS (evalS n' ft) (bind ps vs ++ en) o1 forms VNil
+                      | None => eval_bodyS (evalS n' ft) (bind ps vs ++ clos ++ en) o1 forms VNil
                       end
                   | (AStop r, o1) => (r, o1)
                   end
@@ -104,6 +104,25 @@ Fixpoint evalS (n : nat) (ft : ftab) (en : env) (o : list value) (e : sexp) : re
   end.
 
 (* ---- top level -------------------------------------------------------------------------------- *)
+(* a variable definition with an init form: defvar evaluates it only when the variable does not exist yet *)
+Definition gdef_evaluates (gv : env) (always : bool) (nm : string) : bool :=
+  always || match slookup (gkey nm) gv with None => true | Some _ => false end.
+Definition gdef_evalS (ev : env -> list value -> sexp -> res * list value) (gv : env) (o : list value) (always : bool)
+  (nm : string) (init : sexp) : res * list value * env :=
+  if always then
+    match ev gv o init with
+    | (Val v, o1) => (Val (VSym nm), o1, (gkey nm, first_val v) :: gv)
+    | (r, o1) => (r, o1, gv)
+    end
+  else
+    match slookup (gkey nm) gv with
+    | Some _ => (Val (VSym nm), o, gv)
+    | None =>
+        match ev gv o init with
+        | (Val v, o1) => (Val (VSym nm), o1, (gkey nm, norm v) :: gv)
+        | (r, o1) => (r, o1, gv)
+        end
+    end.
 Fixpoint run_formsS (n : nat) (ft : ftab) (gv : env) (o : list value) (fs : list tform) (lastv : value)
   : res * list value * ftab * env :=
   match fs with
@@ -111,29 +130,49 @@ Fixpoint run_formsS (n : nat) (ft : ftab) (gv : env) (o : list value) (fs : list
   | TQuote nm :: r => run_formsS n ft gv o r (VSym nm)
   | TForm e :: r =>
       match parse_defun e with
-      | Some (nm, ps, body) => run_formsS n ((nm, (ps, body)) :: ft) gv o r (VSym nm)
+      | Some (nm, ps, body) => run_formsS n ((nm, (ps, body, [])) :: ft) gv o r (VSym nm)
       | None =>
-          match parse_gdef e with
-          | Some (always, nm, z) => run_formsS n ft (gdef gv always nm z) o r (VSym nm)
-          | None => match evalS n ft gv o e with (Val v, o1) => run_formsS n ft gv o1 r v | (x, o1) => (x, o1, ft, gv) end
+          match parse_letdefun e with
+          (* the function sees the variables of the let it was defined in *)
+          | Some (clos, nm, ps, body) => run_formsS n ((nm, (ps, body, clos)) :: ft) gv o r (VSym nm)
+          | None =>
+              match parse_gdef e with
+              | Some (always, nm, init) =>
+                  match gdef_evalS (evalS n ft) gv o always nm init with
+                  | (Val v, o1, gv1) => run_formsS n ft gv1 o1 r v
+                  | (x, o1, gv1) => (x, o1, ft, gv1)
+                  end
+              | None => match evalS n ft gv o e with (Val v, o1) => run_formsS n ft gv o1 r v | (x, o1) => (x, o1, ft, gv) end
+              end
           end
       end
   end.
-(* compiling a code object = making its definitions now (code.go: "This evaluates all the defun ...") *)
-Fixpoint compile_defsS (ft : ftab) (gv : env) (fs : list tform) : ftab * env * list tform :=
+(* compiling a code object = making its top-level definitions now, in source order (code.go: "This evaluates all
+   the defun, defvar, and defmacro calls"): the init form of a variable is evaluated with the function definitions
+   made so far.  A condition ends the compilation; the forms from there on are left as they are. *)
+Fixpoint compile_defsS (n : nat) (ft : ftab) (gv : env) (o : list value) (fs : list tform)
+  : res * list value * ftab * env * list tform :=
   match fs with
-  | [] => (ft, gv, [])
+  | [] => (Val VNil, o, ft, gv, [])
   | TForm e :: r =>
       match parse_defun e with
       | Some (nm, ps, body) =>
-          let '(ft', gv', r') := compile_defsS ((nm, (ps, body)) :: ft) gv r in (ft', gv', TQuote nm :: r')
+          let '(x, o', ft', gv', r') := compile_defsS n ((nm, (ps, body, [])) :: ft) gv o r in (x, o', ft', gv', TQuote nm :: r')
       | None =>
-          match parse_gdef e with
-          | Some (always, nm, z) => let '(ft', gv', r') := compile_defsS ft (gdef gv always nm z) r in (ft', gv', TQuote nm :: r')
-          | None => let '(ft', gv', r') := compile_defsS ft gv r in (ft', gv', TForm e :: r')
+          match parse_letdefun e with
+          | Some _ => let '(x, o', ft', gv', r') := compile_defsS n ft gv o r in (x, o', ft', gv', TForm e :: r')
+          | None =>
+              match parse_gdef e with
+              | Some (always, nm, init) =>
+                  match gdef_evalS (evalS n ft) gv o always nm init with
+                  | (Val _, o1, gv1) => let '(x, o', ft', gv', r') := compile_defsS n ft gv1 o1 r in (x, o', ft', gv', TQuote nm :: r')
+                  | (x, o1, gv1) => (x, o1, ft, gv1, TForm e :: r)
+                  end
+              | None => let '(x, o', ft', gv', r') := compile_defsS n ft gv o r in (x, o', ft', gv', TForm e :: r')
+              end
           end
       end
-  | t :: r => let '(ft', gv', r') := compile_defsS ft gv r in (ft', gv', t :: r')
+  | t :: r => let '(x, o', ft', gv', r') := compile_defsS n ft gv o r in (x, o', ft', gv', t :: r')
   end.
 Record sstate := mkS { sft : ftab; sgv : env; scodes : list (nat * list tform) }.
 Definition sinit : sstate := mkS [] [] [].
@@ -143,7 +182,8 @@ Definition stepS (n : nat) (s : sstate) (o : op) : sstate * option obs :=
   | OCompile cid =>
       match nlookup cid (scodes s) with
       | None => (s, None)
-      | Some fs => let '(ft', gv', fs') := compile_defsS (sft s) (sgv s) fs in (mkS ft' gv' ((cid, fs') :: scodes s), None)
+      | Some fs => let '(x, o1, ft', gv', fs') := compile_defsS n (sft s) (sgv s) [] fs in
+                   (mkS ft' gv' ((cid, fs') :: scodes s), Some (x, o1))
       end
   | ORun cid =>
       match nlookup cid (scodes s) with
@@ -212,12 +252,12 @@ Fixpoint evalL (late : policy) (n : nat) (ft : ftab) (en : env) (o : list value)
                     | (AStop r, o1) => (r, o1)
                     end
                   else (Err EUndefined, o)
-              | Some (ps, forms) =>
+              | Some (ps, forms, clos) =>
                   match eval_argsS (evalL late n' ft) en o args with
                   | (AVals vs, o1) =>
                       match arity_err (List.length ps) (List.length vs) with
                       | Some e => (Err e, o1)                 (* too many or too few arguments *)
-                      | None => eval_bodyS (evalL late n' ft) (bind ps vs ++ en) o1 forms VNil
+                      | None => eval_bodyS (evalL late n' ft) (bind ps vs ++ clos ++ en) o1 forms VNil
                       end
                   | (AStop r, o1) => (r, o1)
                   end
@@ -227,10 +267,13 @@ Fixpoint evalL (late : policy) (n : nat) (ft : ftab) (en : env) (o : list value)
       end
   end.
 
-(* Histories with an oracle: one policy for every top-level form that is evaluated (the lookup time may differ
-   from one evaluation to the next: it depends on what has been compiled meanwhile), taken from a list; when
-   the list is exhausted the policy is `early`.  The rest of the list is returned. *)
+(* Histories with an oracle: one policy for every evaluation of a top-level form or of the init form of a variable
+   definition (the lookup time may differ from one evaluation to the next: it depends on what has been compiled
+   meanwhile), taken from a list; when the list is exhausted the policy is `early`.  The rest of the list is
+   returned. *)
 Definition pol_hd (pols : list policy) : policy := match pols with p :: _ => p | [] => early end.
+Definition pols_after_gdef (gv : env) (always : bool) (nm : string) (pols : list policy) : list policy :=
+  if gdef_evaluates gv always nm then tl pols else pols.
 Fixpoint run_formsL (n : nat) (ft : ftab) (gv : env) (o : list value) (fs : list tform) (lastv : value) (pols : list policy)
   : res * list value * ftab * env * list policy :=
   match fs with
@@ -238,26 +281,66 @@ Fixpoint run_formsL (n : nat) (ft : ftab) (gv : env) (o : list value) (fs : list
   | TQuote nm :: r => run_formsL n ft gv o r (VSym nm) pols
   | TForm e :: r =>
       match parse_defun e with
-      | Some (nm, ps, body) => run_formsL n ((nm, (ps, body)) :: ft) gv o r (VSym nm) pols
+      | Some (nm, ps, body) => run_formsL n ((nm, (ps, body, [])) :: ft) gv o r (VSym nm) pols
       | None =>
-          match parse_gdef e with
-          | Some (always, nm, z) => run_formsL n ft (gdef gv always nm z) o r (VSym nm) pols
-          | None => match evalL (pol_hd pols) n ft gv o e with
-                    | (Val v, o1) => run_formsL n ft gv o1 r v (tl pols)
-                    | (x, o1) => (x, o1, ft, gv, tl pols)
-                    end
+          match parse_letdefun e with
+          | Some (clos, nm, ps, body) => run_formsL n ((nm, (ps, body, clos)) :: ft) gv o r (VSym nm) pols
+          | None =>
+              match parse_gdef e with
+              | Some (always, nm, init) =>
+                  match gdef_evalS (evalL (pol_hd pols) n ft) gv o always nm init with
+                  | (Val v, o1, gv1) => run_formsL n ft gv1 o1 r v (pols_after_gdef gv always nm pols)
+                  | (x, o1, gv1) => (x, o1, ft, gv1, pols_after_gdef gv always nm pols)
+                  end
+              | None => match evalL (pol_hd pols) n ft gv o e with
+                        | (Val v, o1) => run_formsL n ft gv o1 r v (tl pols)
+                        | (x, o1) => (x, o1, ft, gv, tl pols)
+                        end
+              end
           end
       end
   end.
+Fixpoint compile_defsL (n : nat) (ft : ftab) (gv : env) (o : list value) (fs : list tform) (pols : list policy)
+  : res * list value * ftab * env * list tform * list policy :=
+  match fs with
+  | [] => (Val VNil, o, ft, gv, [], pols)
+  | TForm e :: r =>
+      match parse_defun e with
+      | Some (nm, ps, body) =>
+          let '(x, o', ft', gv', r', p') := compile_defsL n ((nm, (ps, body, [])) :: ft) gv o r pols in (x, o', ft', gv', TQuote nm :: r', p')
+      | None =>
+          match parse_letdefun e with
+          | Some _ => let '(x, o', ft', gv', r', p') := compile_defsL n ft gv o r pols in (x, o', ft', gv', TForm e :: r', p')
+          | None =>
+              match parse_gdef e with
+              | Some (always, nm, init) =>
+                  match gdef_evalS (evalL (pol_hd pols) n ft) gv o always nm init with
+                  | (Val _, o1, gv1) =>
+                      let '(x, o', ft', gv', r', p') := compile_defsL n ft gv1 o1 r (pols_after_gdef gv always nm pols) in
+                      (x, o', ft', gv', TQuote nm :: r', p')
+                  | (x, o1, gv1) => (x, o1, ft, gv1, TForm e :: r, pols_after_gdef gv always nm pols)
+                  end
+              | None => let '(x, o', ft', gv', r', p') := compile_defsL n ft gv o r pols in (x, o', ft', gv', TForm e :: r', p')
+              end
+          end
+      end
+  | t :: r => let '(x, o', ft', gv', r', p') := compile_defsL n ft gv o r pols in (x, o', ft', gv', t :: r', p')
+  end.
 Definition stepL (n : nat) (s : sstate) (o : op) (pols : list policy) : sstate * option obs * list policy :=
   match o with
+  | OLoad cid forms => (mkS (sft s) (sgv s) ((cid, map TForm forms) :: scodes s), None, pols)
+  | OCompile cid =>
+      match nlookup cid (scodes s) with
+      | None => (s, None, pols)
+      | Some fs => let '(x, o1, ft', gv', fs', pols') := compile_defsL n (sft s) (sgv s) [] fs pols in
+                   (mkS ft' gv' ((cid, fs') :: scodes s), Some (x, o1), pols')
+      end
   | ORun cid =>
       match nlookup cid (scodes s) with
       | None => (s, None, pols)
       | Some fs => let '(r, o1, ft', gv', pols') := run_formsL n (sft s) (sgv s) [] fs VNil pols in
                    (mkS ft' gv' (scodes s), Some (r, o1), pols')
       end
-  | _ => let (s', ob) := stepS n s o in (s', ob, pols)
   end.
 Fixpoint runL (n : nat) (s : sstate) (ops : list op) (pols : list policy) : list obs :=
   match ops with
@@ -273,26 +356,54 @@ Definition binding (r : res) : bool := match r with OutOfFuel => false | _ => tr
    they return is a policy the language allows. *)
 Definition latef (st : state) : policy :=
   fun f => match slookup f (funcs st) with Some _ => true | None => false end.
-(* the policies along M's run: one for every top-level form that is evaluated *)
+(* the policies along M's run: one for every evaluation of a top-level form or init form *)
+Definition pol_gdef (st : state) (gv : env) (always : bool) (nm : string) : list policy :=
+  if gdef_evaluates gv always nm then [latef st] else [].
 Fixpoint pols_forms (n : nat) (st : state) (gv : env) (fs : list tform) : list policy :=
   match fs with
   | [] => []
   | TQuote _ :: r => pols_forms n st gv r
   | TForm e :: r =>
       match parse_defun e with
-      | Some (nm, ps, body) => pols_forms n (defunM st nm ps body) gv r
+      | Some (nm, ps, body) => pols_forms n (defunM st nm ps body []) gv r
       | None =>
-          match parse_gdef e with
-          | Some (always, nm, z) => pols_forms n st (gdef gv always nm z) r
-          | None => latef st :: match evalM n st gv e with (Val _, st1) => pols_forms n st1 gv r | _ => [] end
+          match parse_letdefun e with
+          | Some (clos, nm, ps, body) => pols_forms n (defunM st nm ps body clos) gv r
+          | None =>
+              match parse_gdef e with
+              | Some (always, nm, init) =>
+                  pol_gdef st gv always nm ++
+                  match gdef_eval (evalM n) st gv always nm init with (Val _, st1, gv1) => pols_forms n st1 gv1 r | _ => [] end
+              | None => latef st :: match evalM n st gv e with (Val _, st1) => pols_forms n st1 gv r | _ => [] end
+              end
           end
       end
+  end.
+Fixpoint pols_compile (n : nat) (st : state) (gv : env) (fs : list tform) : list policy :=
+  match fs with
+  | [] => []
+  | TForm e :: r =>
+      match parse_defun e with
+      | Some (nm, ps, body) => pols_compile n (defunM st nm ps body []) gv r
+      | None =>
+          match parse_letdefun e with
+          | Some _ => pols_compile n st gv r
+          | None =>
+              match parse_gdef e with
+              | Some (always, nm, init) =>
+                  pol_gdef st gv always nm ++
+                  match gdef_eval (evalM n) st gv always nm init with (Val _, st1, gv1) => pols_compile n st1 gv1 r | _ => [] end
+              | None => pols_compile n st gv r
+              end
+          end
+      end
+  | _ :: r => pols_compile n st gv r
   end.
 Definition pols_step (n : nat) (m : mstate) (o : op) : list policy :=
   match o with
   | ORun cid => match nlookup cid (codes m) with Some fs => pols_forms n (set_out (ms m) []) (mgv m) fs | None => [] end
+  | OCompile cid => match nlookup cid (codes m) with Some fs => pols_compile n (set_out (ms m) []) (mgv m) fs | None => [] end
   | _ => []
   end.
 Fixpoint pols_run (n : nat) (m : mstate) (ops : list op) : list policy :=
   match ops with [] => [] | o :: r => pols_step n m o ++ pols_run n (fst (stepM n m o)) r end.
-
